@@ -45,7 +45,7 @@ def run_one(pid, tier, job):
     for k, kind in kinds.items():
         val = job["values"].get(k, 0)
         if kind == "real":
-            val = float(Fraction(val))   # the real code works on doubles
+            val = Fraction(val) if getattr(h, "exact_reals", False) else float(Fraction(val))   # the real code works on doubles
         elif kind == "bool":
             val = bool(val)
         else:
